@@ -1017,7 +1017,7 @@ def _set(eng, ctx, args, kwargs):
     if isinstance(x, HRef) and ctx.heap[x.id].kind == 'map' and isinstance(ctx.heap[x.id].data, SV):
         yield ctx, SetV(ctx.heap[x.id].data.c['dom'])
         return
-    if isinstance(x, (PySeq, HRef)):
+    if isinstance(x, (PySeq, HRef)) or (isinstance(x, S) and x.sort == 'V'):
         seq = eng.as_seq(ctx, x)
         fl = seq.fixed_len()
         if fl is not None:
